@@ -477,7 +477,7 @@ fn run(ctx: &mut Ctx) {
         }
     }
     // name families
-    for names in [["x1", "y'", "_z"], ["a", "v_a", "b"], ["v_v_a", "v_a", "a"], ["source", "target", "hub"], ["from", "to", "x"], ["src", "dst", "id"], ["Source", "Target", "weight"], ["v1", "v01", "v001"], ["n2", "n02", "n10"]] {
+    for names in [["x1", "y'", "_z"], ["a", "v_a", "b"], ["v_v_a", "v_a", "a"], ["source", "target", "hub"], ["from", "to", "x"], ["src", "dst", "id"], ["Source", "Target", "weight"], ["v1", "v01", "v001"], ["n2", "n02", "n10"], ["a", "v_a", "v__a"], ["v___b", "v__b", "b"]] {
         let p = pairs(&names, false);
         for mask in 0..(1usize << p.len()) {
             let edges: Vec<(String, String)> = (0..p.len()).filter(|i| mask & (1 << i) != 0).map(|i| p[i].clone()).collect();
